@@ -1,0 +1,245 @@
+//! Verification facade for `dns_cache.rs` (cargo feature `verif-hooks`).
+//!
+//! Plain-data views and thin wrappers over the crate-private `DnsCache`; no logic of its
+//! own beyond sorting what comes out of a `HashMap`.  This file is a child module of
+//! `dns_cache`, so it can read private fields.
+
+use super::*;
+use crate::dns_parser::verif_hooks::{build_record, view_record, RecDesc, RecHandle, RecView};
+
+/// One cache entry: the record and the interface it was received on.
+#[derive(Debug, Clone, PartialEq, Eq)]
+pub struct EntryView {
+    pub rec: RecView,
+    pub src_name: String,
+    pub src_index: u32,
+}
+
+/// What `DnsCache::add_or_update` returned, and the timers it pushed.
+#[derive(Debug, Clone, PartialEq, Eq)]
+pub struct AddView {
+    /// `Some((entry, is_new))` / `None`, as returned
+    pub result: Option<(EntryView, bool)>,
+    pub timers: Vec<u64>,
+}
+
+/// All entries of the cache; keys of every map sorted, `Vec` order inside a key kept.
+#[derive(Debug, Clone, PartialEq, Eq, Default)]
+pub struct CacheDump {
+    pub ptr: Vec<(String, Vec<EntryView>)>,
+    pub srv: Vec<(String, Vec<EntryView>)>,
+    pub txt: Vec<(String, Vec<EntryView>)>,
+    pub addr: Vec<(String, Vec<EntryView>)>,
+    pub nsec: Vec<(String, Vec<EntryView>)>,
+    pub subtype: Vec<(String, String)>,
+}
+
+fn view_entry(e: &DnsRecordIntf) -> EntryView {
+    EntryView {
+        rec: view_record(e.record.as_ref()),
+        src_name: e.src_intf.name.clone(),
+        src_index: e.src_intf.index,
+    }
+}
+
+fn view_map(m: &HashMap<String, Vec<DnsRecordIntf>>) -> Vec<(String, Vec<EntryView>)> {
+    let mut v: Vec<_> = m
+        .iter()
+        .map(|(k, es)| (k.clone(), es.iter().map(view_entry).collect()))
+        .collect();
+    v.sort_by(|a: &(String, Vec<EntryView>), b| a.0.cmp(&b.0));
+    v
+}
+
+fn my_intf(if_name: &str, if_index: u32) -> MyIntf {
+    MyIntf {
+        name: if_name.to_string(),
+        index: if_index,
+        addrs: HashSet::new(),
+    }
+}
+
+/// Handle over one `DnsCache`.
+pub struct CacheHandle(DnsCache);
+
+impl Default for CacheHandle {
+    fn default() -> Self {
+        Self::new()
+    }
+}
+
+impl CacheHandle {
+    pub fn new() -> Self {
+        CacheHandle(DnsCache::new())
+    }
+
+    /// `DnsCache::add_or_update` with a record built by the crate's own constructors
+    /// (it takes `created` from the virtual clock).  `None` = the description is not
+    /// buildable (unknown record type).
+    pub fn add_or_update(
+        &mut self,
+        if_name: &str,
+        if_index: u32,
+        d: &RecDesc,
+        is_for_us: bool,
+    ) -> Option<AddView> {
+        let incoming = build_record(d)?;
+        Some(self.add_or_update_record(if_name, if_index, RecHandle(incoming), is_for_us))
+    }
+
+    /// Same, for a record that was built earlier (possibly at another virtual time).
+    pub fn add_or_update_record(
+        &mut self,
+        if_name: &str,
+        if_index: u32,
+        incoming: RecHandle,
+        is_for_us: bool,
+    ) -> AddView {
+        let intf = my_intf(if_name, if_index);
+        let mut timers = Vec::new();
+        let result = self
+            .0
+            .add_or_update(&intf, incoming.0, &mut timers, is_for_us)
+            .map(|(e, is_new)| (view_entry(e), is_new));
+        AddView { result, timers }
+    }
+
+    pub fn evict_expired_addr(&mut self, now: u64) -> HashMap<String, HashSet<ScopedIp>> {
+        self.0.evict_expired_addr(now)
+    }
+
+    pub fn evict_expired_services(&mut self, now: u64) -> HashMap<String, HashSet<String>> {
+        self.0.evict_expired_services(now)
+    }
+
+    pub fn remove_service_type(&mut self, ty_domain: &str) {
+        self.0.remove_service_type(ty_domain)
+    }
+
+    /// reads `now` from the virtual clock
+    pub fn refresh_due_ptr(&mut self, ty_domain: &str) -> HashSet<u64> {
+        self.0.refresh_due_ptr(ty_domain)
+    }
+
+    /// reads `now` from the virtual clock; record types as `u16`
+    pub fn refresh_due_srv_txt(
+        &mut self,
+        ty_domain: &str,
+    ) -> (HashMap<String, Vec<u16>>, HashSet<u64>) {
+        let (due, timers) = self.0.refresh_due_srv_txt(ty_domain);
+        (
+            due.into_iter()
+                .map(|(k, v)| (k, v.into_iter().map(|t| t as u16).collect()))
+                .collect(),
+            timers,
+        )
+    }
+
+    /// reads `now` from the virtual clock
+    pub fn refresh_due_hosts(&mut self, ty_domain: &str) -> (HashSet<String>, HashSet<u64>) {
+        self.0.refresh_due_hosts(ty_domain)
+    }
+
+    /// reads `now` from the virtual clock
+    pub fn refresh_due_hostname_resolutions(
+        &mut self,
+        hostname: &str,
+    ) -> HashSet<(String, ScopedIp)> {
+        self.0.refresh_due_hostname_resolutions(hostname)
+    }
+
+    /// `None` = unknown record type.  The entries are clones, in the order returned.
+    pub fn get_known_answers(
+        &self,
+        name: &str,
+        ty: u16,
+        now: u64,
+    ) -> Option<Vec<(RecHandle, EntryView)>> {
+        let qtype = RRType::from_u16(ty)?;
+        Some(
+            self.0
+                .get_known_answers(name, qtype, now)
+                .into_iter()
+                .map(|e| (RecHandle(e.record.clone()), view_entry(e)))
+                .collect(),
+        )
+    }
+
+    pub fn service_verify_queries(
+        &mut self,
+        instance: &str,
+        expire_at: Option<u64>,
+    ) -> Vec<(String, u16)> {
+        self.0
+            .service_verify_queries(instance, expire_at)
+            .into_iter()
+            .map(|(n, t)| (n, t as u16))
+            .collect()
+    }
+
+    /// `ip_bits`: 1 = A records, 2 = AAAA records, 3 = both
+    pub fn remove_addrs_on_disabled_intf(&mut self, if_index: u32, ip_bits: u8) {
+        self.0
+            .remove_addrs_on_disabled_intf(if_index, IpType(ip_bits))
+    }
+
+    /// (removed instances per ty_domain, modified instances), sorted
+    pub fn remove_records_on_intf(
+        &mut self,
+        if_name: &str,
+        if_index: u32,
+    ) -> (Vec<(String, Vec<String>)>, Vec<String>) {
+        let r = self.0.remove_records_on_intf(InterfaceId {
+            name: if_name.to_string(),
+            index: if_index,
+        });
+        let mut removed: Vec<(String, Vec<String>)> = r
+            .removed_instances
+            .into_iter()
+            .map(|(k, v)| {
+                let mut v: Vec<String> = v.into_iter().collect();
+                v.sort();
+                (k, v)
+            })
+            .collect();
+        removed.sort();
+        let mut modified: Vec<String> = r.modified_instances.into_iter().collect();
+        modified.sort();
+        (removed, modified)
+    }
+
+    pub fn dump(&self) -> CacheDump {
+        let mut subtype: Vec<(String, String)> = self
+            .0
+            .subtype
+            .iter()
+            .map(|(k, v)| (k.clone(), v.clone()))
+            .collect();
+        subtype.sort();
+        CacheDump {
+            ptr: view_map(&self.0.ptr),
+            srv: view_map(&self.0.srv),
+            txt: view_map(&self.0.txt),
+            addr: view_map(&self.0.addr),
+            nsec: view_map(&self.0.nsec),
+            subtype,
+        }
+    }
+}
+
+/// Known-answer suppression against a whole query: `DnsRecordExt::suppressed_by` with the
+/// message `DnsIncoming::new` decodes from `data` as received on the given interface.
+/// `None` = the datagram is refused by the decoder.
+pub fn suppressed_by_packet(
+    mine: &RecHandle,
+    data: &[u8],
+    if_name: &str,
+    if_index: u32,
+) -> Option<bool> {
+    let intf = InterfaceId {
+        name: if_name.to_string(),
+        index: if_index,
+    };
+    let msg = crate::dns_parser::DnsIncoming::new(data.to_vec(), intf).ok()?;
+    Some(mine.0.suppressed_by(&msg))
+}
